@@ -91,38 +91,43 @@ class Checker:
 
     def _in_flight(self, done, t, mrec, views, i, st_after):
         """Operation mrec (thread t) has performed dict-level steps views[:i+1]; lock-free
-        reads of other threads that overlap it may be linearised against views[i]."""
-        if i >= len(views) - 1:
-            nd = done[:t] + (done[t] + 1,) + done[t + 1:]
-            return self._search(nd, st_after)
-        self.nodes += 1
-        if self.nodes > self.max_nodes:
-            self.exhausted = True
-            return False
-        view_state = (views[i], 0, 0, 0)
-        for u in range(self.n):
-            if u == t or done[u] >= len(self.threads[u]):
-                continue
-            r = self.threads[u][done[u]]
-            if r['op'][0] not in M.LOCK_FREE_READS:
-                continue
-            # r must overlap mrec in real time, and be minimal among the others
-            if not (r['inv'] < mrec['ret'] and mrec['inv'] < r['ret']):
-                continue
-            ok = True
-            for w in range(self.n):
-                if w not in (u, t) and done[w] < len(self.threads[w]):
-                    if self.threads[w][done[w]]['ret'] < r['inv']:
-                        ok = False
-                        break
-            if not ok:
-                continue
-            out = M.apply(self.spec, view_state, r['op'])[0][0]
-            if out == r['out']:
-                nd = done[:u] + (done[u] + 1,) + done[u + 1:]
-                if self._in_flight(nd, t, mrec, views, i, st_after):
-                    return True
-        return self._in_flight(done, t, mrec, views, i + 1, st_after)
+        reads of other threads that overlap it may be linearised against views[i].
+        Iterative over the view index (bulk operations have thousands of steps); recursion
+        only when a read is consumed."""
+        last = len(views) - 1
+        while i < last:
+            self.nodes += 1
+            if self.nodes > self.max_nodes:
+                self.exhausted = True
+                return False
+            view_state = None
+            for u in range(self.n):
+                if u == t or done[u] >= len(self.threads[u]):
+                    continue
+                r = self.threads[u][done[u]]
+                if r['op'][0] not in M.LOCK_FREE_READS:
+                    continue
+                # r must overlap mrec in real time, and be minimal among the others
+                if not (r['inv'] < mrec['ret'] and mrec['inv'] < r['ret']):
+                    continue
+                ok = True
+                for w in range(self.n):
+                    if w not in (u, t) and done[w] < len(self.threads[w]):
+                        if self.threads[w][done[w]]['ret'] < r['inv']:
+                            ok = False
+                            break
+                if not ok:
+                    continue
+                if view_state is None:
+                    view_state = (views[i], 0, 0, 0)
+                out = M.apply(self.spec, view_state, r['op'])[0][0]
+                if out == r['out']:
+                    nd = done[:u] + (done[u] + 1,) + done[u + 1:]
+                    if self._in_flight(nd, t, mrec, views, i, st_after):
+                        return True
+            i += 1
+        nd = done[:t] + (done[t] + 1,) + done[t + 1:]
+        return self._search(nd, st_after)
 
 
 def classify(spec, threads, final_items, final_order, init_state=None):
